@@ -311,6 +311,13 @@ def main(argv):
                 yield "module m\ninterface g\n%s\nend interface g\nend module m\n" % st
             for st in FORMATS:
                 yield "program p\n10 format(%s)\nend program p\n" % st
+            # declarations of names that are also intrinsic names, followed by references (the two parsers have to agree
+            # on what is a call of the intrinsic and what is the declared entity)
+            for decl in ("integer :: size", "integer, intrinsic :: size", "real, external :: size", "real :: size(3)", "intrinsic size", "external size", "integer, dimension(2) :: size",
+                         "real, intrinsic :: sum, abs", "use mm, only: size", "integer, parameter :: size = 3"):
+                for ref in ("n = size(a)", "n = sum(abs(a)) + size(a, 1)", "call sub(size(a), b=sum(a))", "if (size(a) > 0) n = abs(n)"):
+                    yield "subroutine s(a, n)\n%s\n%s\nend subroutine s\n" % (decl, ref)
+                    yield "module m\n%s\ncontains\nsubroutine s(a, n)\n%s\nend subroutine s\nend module m\n" % (decl, ref)
 
         def run(std):
             parser = ParserFactory().create(std=std)
@@ -331,14 +338,14 @@ def main(argv):
                 continue
             accepted += 1
             v8 = a08[src]
-            if v8 is None or v8.lower() != v3.lower():
+            if v8 is None or v8 != v3:
                 # the site of a difference: the statement shapes (keywords kept, names and numbers abstracted) that differ
                 def shape_of(line):
                     t = re.sub(r"[a-z_0-9]+", "_", line.strip())
                     return re.sub(r"_(, _)+", "_", t)
                 site = None
                 if v8 is not None and len(v8.splitlines()) == len(v3.splitlines()):
-                    site = sorted({(shape_of(x), shape_of(y)) for x, y in zip(v3.splitlines(), v8.splitlines()) if x.lower() != y.lower()})
+                    site = sorted({(shape_of(x), shape_of(y)) for x, y in zip(v3.splitlines(), v8.splitlines()) if x != y})
                     site = [list(pair) for pair in site]
                 failures.append(dict(obligation="two.Fortran2008#f2008_accepts_what_f2003_accepts",
                                      witness=dict(source=src, site=site), observed=dict(f2003=v3, f2008=v8)))
